@@ -316,6 +316,13 @@ class ExprMixin:
     def class_attr(self, st: State, ci, attr: str, node) -> Val:
         m = front.find_method(ci, attr)
         if m is not None:
+            if "ClassProperty" in m.decorators:
+                outs = self.inline_call(st, m, [Val(py=("class", ci))], {}, node)
+                if len(outs) == 1 and outs[0].kind == "val":
+                    o = outs[0].st
+                    st.heap, st.nalloc, st.alloc_base, st.pc = o.heap, o.nalloc, o.alloc_base, o.pc
+                    return outs[0].val
+                raise Unsupported(f"class property {ci.name}.{attr}", node)
             if m.is_classmethod:
                 return Val(py=("bound", Val(py=("class", ci)), m))
             return Val(py=("func", m))
